@@ -4,14 +4,19 @@ Pure PyRTL."""
 import random
 
 
+def interesting(w):
+    """Boundary values of a w-bit wire, including every 64-bit limb boundary."""
+    vs = {0, 1, (1 << w) - 1, (1 << w) - 2, 1 << (w - 1), (1 << (w - 1)) - 1}
+    for k in range(64, w + 1, 64):
+        vs |= {(1 << k) - 1, 1 << k, (1 << k) + 1, ((1 << w) - 1) ^ ((1 << k) - 1),
+               ((1 << w) - 1) ^ 1, ((1 << w) - 1) ^ (1 << (k - 1))}
+    return sorted(v for v in vs if 0 <= v < (1 << w))
+
+
 def _rand_val(rnd, w):
     c = rnd.random()
-    if c < 0.15:
-        return 0
-    if c < 0.3:
-        return (1 << w) - 1
-    if c < 0.4:
-        return 1 << (w - 1)
+    if c < 0.45:
+        return rnd.choice(interesting(w))
     return rnd.getrandbits(w)
 
 
@@ -23,13 +28,20 @@ def stimuli(block, seed, nsteps):
 
 
 def init_state(block, seed, use_init):
+    """use_init: False/0 none; 1 random; 2 every register explicitly 0 and memories explicit 0s;
+    3 every register all-ones"""
     import pyrtl
     rnd = random.Random(seed + 7919)
     regmap, memmap = {}, {}
     if not use_init:
         return regmap, memmap
+    mode = int(use_init)
     for r in sorted(block.wirevector_subset(pyrtl.Register), key=lambda w: w.name):
-        if rnd.random() < 0.7:
+        if mode == 2:
+            regmap[r] = 0
+        elif mode == 3:
+            regmap[r] = (1 << r.bitwidth) - 1
+        elif rnd.random() < 0.7:
             regmap[r] = _rand_val(rnd, r.bitwidth)
     mems = {}
     for n in block.logic:
@@ -39,7 +51,10 @@ def init_state(block, seed, use_init):
         m = mems[mid]
         d = {}
         for a in range(min(2 ** m.addrwidth, 16)):
-            if rnd.random() < 0.5:
+            if mode == 2:
+                if a % 2 == 0:
+                    d[a] = 0
+            elif rnd.random() < 0.5:
                 d[a] = _rand_val(rnd, m.bitwidth)
         memmap[m] = d
     return regmap, memmap
@@ -56,8 +71,8 @@ def run_case(design, simname='Simulation', seed=0, nsteps=6, use_init=True, defa
         block, _ = passes.get(p)(block)
     steps = stimuli(block, seed, nsteps)
     regmap, memmap = init_state(block, seed, use_init)
-    ref = RefSim(block, regmap, {m: dict(d) for m, d in memmap.items()},
-                 default_value if simname != 'CompiledSimulation' else 0)
+    ref = RefSim(block, regmap, {m: dict(d) for m, d in memmap.items()}, default_value,
+                 mem_default=(0 if simname == 'CompiledSimulation' else None))
     tracer = pyrtl.SimulationTrace(wires_to_track='all' if simname == 'Simulation' else None,
                                    block=block)
     simcls = getattr(pyrtl, simname)
@@ -99,3 +114,22 @@ def run_case(design, simname='Simulation', seed=0, nsteps=6, use_init=True, defa
                         expected={'mem': m.name, 'content': exp})
     return dict(failed=False, observed='agree', expected='agree', wires=len(tracked),
                 cycles=len(steps))
+
+
+def cnet_replay(op, op_param, argws, dw, vals, simname='CompiledSimulation'):
+    """Replayer: a one-net design (hand-made LogicNet between Inputs and an Output) on the real
+    simulator, against netsem_int."""
+    import pyrtl
+    from spec.netsem import netsem_int
+    pyrtl.reset_working_block()
+    ins = [pyrtl.Input(w, 'i%d' % i) for i, w in enumerate(argws)]
+    dest = pyrtl.WireVector(dw, 'dest_w')
+    net = pyrtl.LogicNet(op, tuple(op_param) if op_param is not None else None, tuple(ins), (dest,))
+    pyrtl.working_block().add_net(net)
+    o = pyrtl.Output(dw, 'o')
+    o <<= dest
+    sim = getattr(pyrtl, simname)()
+    sim.step({'i%d' % i: v for i, v in enumerate(vals)})
+    got = sim.inspect('o')
+    exp = netsem_int(op, op_param, list(vals), list(argws), dw)
+    return dict(failed=(got != exp), observed=got, expected=exp)
